@@ -55,6 +55,8 @@ def _value(v):
 def _operand(o):
     if o[0] == "scalar":
         return f"(OScalar {cz(o[1])})"
+    if o[0] == "ad":
+        return f"(OAd {_zs(o[1])} {cnat(o[2])} {_crows(o[3])})"
     return f"(OMat {cnat(o[1])} {_crows(o[2])})"
 
 
@@ -85,9 +87,9 @@ def _out(o):
 
 
 def _dump(d):
+    pend = clist(d["pend"], lambda t: f"({cnat(t[0])}, {cnat(t[1])}, {cnat(t[2])})")
     return (f"(mkD {_nats(d['dom'])} {_nats(d['rng'])} {cnat(d['rsize'])} {cnat(d['dsize'])} "
-            f"{cbool(d['onto'])} {cbool(d['transposed'])} {cnat(d['pkind'])} {cnat(d['pid'])} "
-            f"{cnat(d['pop'])})")
+            f"{cbool(d['onto'])} {cbool(d['transposed'])} {pend})")
 
 
 # ---------------------------------------------------------------------------- python values
@@ -98,19 +100,42 @@ def _csr(nc, rows):
     return sps.csr_matrix((data, indices, indptr), shape=(len(rows), nc))
 
 
-def _py_value(v):
+def _py_value(v, opts=None):
+    """The operand as handed to the implementation.  opts: scale = power-of-two exponent
+    applied to all data (divided out of the results again, exactly), dtype of dense
+    operands, storage format of sparse operands, memory order of 2-D arrays."""
+    opts = opts or {}
+    sc = 2.0 ** opts.get("scale", 0)
+    dt = {"float": float, "int": np.int64, "bool": bool}[opts.get("dtype", "float")]
     k = v[0]
     if k == "vec":
-        return np.array(v[1], dtype=float)
+        return (np.array(v[1], dtype=float) * sc).astype(dt)
     if k == "arr":
-        return np.array(v[2], dtype=float).reshape(len(v[2]), v[1])
+        a = (np.array(v[2], dtype=float).reshape(len(v[2]), v[1]) * sc).astype(dt)
+        return np.asfortranarray(a) if opts.get("order") == "F" else a
     if k == "csr":
-        return _csr(v[1], v[2])
+        A = _csr(v[1], v[2]) * sc if sc != 1.0 else _csr(v[1], v[2])
+        fmt = opts.get("fmt", "csr")
+        return A.tocsc() if fmt == "csc" else A.tocoo() if fmt == "coo" else A
     if k == "ad":
-        return pp.ad.AdArray(np.array(v[1], dtype=float), _csr(v[2], v[3]))
+        J = _csr(v[2], v[3])
+        return pp.ad.AdArray(np.array(v[1], dtype=float) * sc, J * sc if sc != 1.0 else J)
     if k == "num":
-        return int(v[1])
+        return int(v[1]) if sc == 1.0 else float(v[1]) * sc
     raise ValueError(k)
+
+
+def _parts(x):
+    """The numpy buffers of an operand."""
+    if isinstance(x, pp.ad.AdArray):
+        return [x.val] + _parts(x.jac)
+    if sps.issparse(x):
+        if x.format == "coo":
+            return [x.data, x.row, x.col]
+        return [x.data, x.indices, x.indptr]
+    if isinstance(x, np.ndarray):
+        return [x]
+    return []
 
 
 def _csr_rows(A):
@@ -124,16 +149,18 @@ def _csr_rows(A):
             for i in range(A.shape[0])]
 
 
-def _canon(r):
+def _canon(r, scale=0):
+    inv = 2.0 ** (-scale)      # exact: power of two
     if isinstance(r, pp.ad.AdArray):
-        return ["ad", [float(x) for x in r.val], int(r.jac.shape[1]), _csr_rows(r.jac)]
+        return ["ad", [float(x) * inv for x in r.val], int(r.jac.shape[1]),
+                [[[c, v * inv] for c, v in row] for row in _csr_rows(r.jac)]]
     if sps.issparse(r):
-        return ["csr", int(r.shape[1]), _csr_rows(r)]
+        return ["csr", int(r.shape[1]), [[[c, v * inv] for c, v in row] for row in _csr_rows(r)]]
     if isinstance(r, np.ndarray):
         if r.ndim == 1:
-            return ["vec", [float(x) for x in r]]
+            return ["vec", [float(x) * inv for x in r]]
         if r.ndim == 2:
-            return ["arr", int(r.shape[1]), [[float(x) for x in row] for row in r]]
+            return ["arr", int(r.shape[1]), [[float(x) * inv for x in row] for row in r]]
     raise TypeError(f"unexpected result type {type(r)}")
 
 
@@ -197,6 +224,17 @@ def _scalar_op(c, op, d):
             return ("ad", c + d[1], d[2])
         if op == "-":
             return ("ad", c - d[1], -d[2])
+    raise NoDemand()
+
+
+def _ad_op(v, J, op, d):
+    """AdArray(v, J) op d  (only the elementwise product stays integral)."""
+    if op != "*":
+        raise NoDemand()
+    if d[0] == "vec" and d[1].shape == v.shape:
+        return ("ad", v * d[1], d[1][:, None] * J)
+    if d[0] == "ad" and d[1].shape == v.shape and d[2].shape == J.shape:
+        return ("ad", v * d[1], d[1][:, None] * J + v[:, None] * d[2])
     raise NoDemand()
 
 
@@ -276,6 +314,9 @@ def _reference(prog):
             o, op = s[1], s[2]
             if o[0] == "scalar":
                 fn = lambda d, c=o[1], op=op, b=b: _scalar_op(c, op, b.fn(d))
+            elif o[0] == "ad":
+                fn = lambda d, v=np.array(o[1], dtype=float), J=_csr(o[2], o[3]).toarray(), op=op, b=b: \
+                    _ad_op(v, J, op, b.fn(d))
             else:
                 A = _csr(o[1], o[2]).toarray()
                 if op != "@":
@@ -399,55 +440,64 @@ class C36(Prop):
     id = "C36"
     props_file = "Props/C36.v"
     preamble = ("From Coq Require Import List ZArith.\nImport ListNotations.\n"
-                "From PP Require Import Model.C36.\n")
+                "From PP Require Import Lib.Csr Model.C36 Model.C36_flat.\n")
     n_cases = (500, 12000)
     design_ref = "DESIGN.md §5 C36, §6 row C36"
     level_text = (
         "Coq theorems over an executable transcription of ArraySlicer (constructor, transpose, copy, "
         "@ on vectors / 2-D arrays / sparse matrices / AdArrays / scalars, slicer @ slicer, the six "
-        "right-operand methods) with python objects in an explicit heap: for every well-formed "
-        "slicer with distinct range indices the result of S @ x equals the explicit 0/1 projection "
-        "matrix times x for all five operand types (C36_apply_is_matrix), the transposed slicer "
-        "denotes the transposed matrix, chains S0 @ S1 @ ... @ Sn @ x of ANY length equal the "
-        "iterated matrix products, a pending right operand A op S @ x equals A op (P x), and — for "
-        "EVERY history of slicer-producing calls — objects that existed before are never modified, "
-        "so a slicer reused after it took part in a chain answers as before (C36_reuse; true only "
-        "after the repair commit, the in-place pre-fix variant is refuted in Coq). The model is tied "
-        "to the code on every run: random histories (constructions, transposes, copies, chains, "
-        "pending operations, applications to all operand types, reuse) are executed by porepy and "
-        "by the model inside Coq, which compares every result and the final state of every object.")
+        "right-operand methods, the ordered list of pending operations) with python objects in an "
+        "explicit heap: for every well-formed slicer with distinct range indices S @ x equals the "
+        "explicit 0/1 projection matrix times x for all five operand types (C36_apply_is_matrix); the "
+        "index-pointer arithmetic of _slice_matrix (argsort, counts, cumsum, range expansion, take) on "
+        "the flat CSR record yields exactly those stored rows (C36_slice_matrix_index_arithmetic); the "
+        "transposed slicer denotes the transposed matrix; for ANY two objects (S_i @ S_j) @ x = "
+        "S_i @ (S_j @ x) and (A op S_j) @ x = A op (S_j @ x), pending operations of the operands "
+        "included, no guard (C36_matmul_composes, C36_rop_composes — true only after the second "
+        "repair commit); chains of ANY length compose (C36_chain_general) and equal the iterated "
+        "matrix products (C36_chain); and for EVERY history objects that existed before are never "
+        "modified (C36_reuse — true only after the first repair commit). Both pre-fix variants are "
+        "refuted in Coq. Tie on every run: random histories executed by porepy and by the model inside "
+        "Coq, which compares every result, the raw indptr/indices/data of sliced matrices against the "
+        "flat transcription, and the final state (incl. the pending list) of every object.")
     level_note = (
-        "Trusted/abstracted: CSR matrices are modelled as lists of stored rows (the indptr/cumsum/"
-        "argsort arithmetic of _slice_matrix is covered by the tie, not by a theorem); the numpy/"
-        "scipy arithmetic of a pending operation is an uninterpreted function in the theorems and a "
-        "small integer instance in the tie; indices are naturals (no negative-index wrap-around); "
-        "AdArray or numpy-array left operands of a pending operation are not modelled. NOT proved: "
-        "anything for repeated range indices on sparse operands (the code builds an inconsistent "
-        "CSR triple: excluded by the guard); X op (Y op S) where S already carries a pending operand "
-        "keeps only X (open finding 'pending-overwritten', refuted in Coq, excluded by the guard "
-        "'right operand has no pending operand' in C36_chain/C36_pending).")
+        "Trusted/abstracted: the numpy/scipy/AdArray arithmetic of a pending operation is an "
+        "uninterpreted function in the theorems and a small integer instance in the tie; "
+        "expand_index_pointers enters the flat model as the flat_map of ranges (its own theorem is "
+        "C35's); indices are naturals (numpy's negative-index wrap-around is outside the model; on "
+        "sparse operands the code does not support it); numpy arrays as LEFT operand of a pending "
+        "operation never reach ArraySlicer (numpy broadcasts over the object) and are not modelled. "
+        "NOT proved: anything for repeated range indices on sparse operands (the code builds an "
+        "inconsistent CSR triple there: excluded by the guard NoDup, not generated); the onto fast "
+        "path on sparse operands is scipy's A[idx] (tie only). The constructor keeps references to "
+        "the index arrays it is given (by design, no copy): a caller overwriting them afterwards "
+        "changes the slicer; the probe therefore overwrites operands and results, not index arrays.")
     technique = ("Coq proof (heap model of slicer objects, frame invariant by induction over histories, "
-                 "matrix semantics by list induction) + vm_compute execution correspondence")
+                 "matrix semantics by list induction, CSR index arithmetic via sorted scatter) + "
+                 "vm_compute execution correspondence")
     rule = ("random histories over a heap of slicer objects: constructor argument patterns (domain only "
             "/ range only / both / with and without sizes; permutations, injections, restrictions, "
-            "repeated domain indices, repeated range indices on dense operands, empty index arrays), "
-            "transposes, copies, chains of length 2-4, scalar and sparse-matrix pending operands with "
-            "@ * / ** + -, applications to vectors, 2-D arrays, CSR matrices (unsorted rows, explicit "
-            "zeros, duplicate columns), AdArrays and scalars, re-application of every operand slicer "
-            "after the chain (reuse), error inputs (no indices, empty indices without size, indices "
-            "out of range, length mismatch); non-trivial = at least one application returned a value; "
-            "distinct by (history, outputs)")
+            "repeated domain indices, repeated range indices on dense operands, empty index arrays; "
+            "int32/int64 index arrays), transposes, copies, chains of length 2-6, scalar, sparse-matrix "
+            "and AdArray pending operands with @ * / ** + -, nested pending operations X op (Y op S) "
+            "and (S0 @ S1) @ (S2 @ (c - S0)), applications to vectors, 2-D arrays (C and Fortran order), "
+            "sparse matrices (csr incl. unsorted rows, explicit zeros, duplicate columns; csc; coo), "
+            "AdArrays and scalars; float / int64 / bool data; all data scaled by exact powers of two "
+            "from 2^-60 to 2^70 where the history is linear; every operand is checked to come back "
+            "unmodified and is overwritten in place before the result is read (aliasing probe); "
+            "re-application of every operand slicer after the chain (reuse); error inputs (no indices, "
+            "empty indices without size, indices out of range, length mismatch); non-trivial = at least "
+            "one application returned a value; distinct by (history, outputs)")
     trusted = [
-        "CSR matrices as lists of stored rows; _slice_matrix's index-pointer arithmetic is compared "
-        "(raw indptr/indices/data of the result, explicit zeros and order kept) but not proved",
-        "integer-valued float data (exact in binary64); pending-operation arithmetic: integer "
-        "instance ext_scalarZ/ext_matZ in the tie, uninterpreted in the theorems",
+        "integer-valued data (exact in binary64, also after power-of-two scaling); pending-operation "
+        "arithmetic: integer instance ext_scalarZ/ext_matZ/ext_adZ in the tie, uninterpreted in the theorems",
+        "expand_index_pointers = flat_map of ranges (C35 theorem) inside the flat _slice_matrix model",
     ]
     assumptions = [
         "indices and sizes are non-negative",
-        "theorem guards: equally long index arrays within the stated sizes, distinct range indices, "
-        "operand with domain_size rows",
-        "pending operands are python ints or scipy csr matrices (or slicers)",
+        "theorem guards of the matrix statements: equally long index arrays within the stated sizes, "
+        "distinct range indices, operand with domain_size rows (the composition / reuse theorems have none)",
+        "pending operands are python ints, scipy sparse matrices, AdArrays or slicers",
     ]
 
     # ------------------------------------------------------------------ generation
@@ -461,16 +511,51 @@ class C36(Prop):
                 c = self._gen_chain(rng)
             elif r < 0.80:
                 c = self._gen_pending(rng)
-            elif r < 0.90:
+            elif r < 0.88:
                 c = self._gen_errors(rng)
+            elif r < 0.91:
+                c = self._gen_ad_left(rng)
             elif r < 0.95:
                 c = self._gen_overwrite(rng)
             else:
                 c = self._gen_random(rng)
             if c is None or not self._vet(c):
                 continue
+            self._options(rng, c)
             made += 1
             yield c
+
+    def _options(self, rng, case):
+        """Representation corners that must not change the result: exact power-of-two scaling
+        over many orders of magnitude, dtypes, sparse storage formats, memory order, index
+        dtype."""
+        prog = case["prog"]
+        opts = {}
+        rops = [s for s in prog if s[0] == "rop"]
+        linear = all(s[2] in ("*", "@") for s in rops)
+        vals = [s[2] for s in prog if s[0] == "apply"]
+        if linear and rng.random() < 0.35:
+            opts["scale"] = rng.choice([-60, -30, -10, -1, 1, 8, 20, 40, 70])
+        elif not rops and rng.random() < 0.3:
+            if rng.random() < 0.35:
+                for v in vals:           # boolean dense operands: data reduced to 0/1
+                    if v[0] == "vec":
+                        v[1] = [abs(x) % 2 for x in v[1]]
+                    elif v[0] == "arr":
+                        v[2] = [[abs(x) % 2 for x in r] for r in v[2]]
+                opts["dtype"] = "bool"
+            else:
+                opts["dtype"] = "int"
+        clean = all(all(r[i][0] < r[i + 1][0] for i in range(len(r) - 1))
+                    for v in vals if v[0] == "csr" for r in v[2])
+        if clean and rng.random() < 0.4:
+            opts["fmt"] = rng.choice(["csc", "coo"])
+        if rng.random() < 0.3:
+            opts["order"] = "F"
+        if rng.random() < 0.3:
+            opts["idx"] = "int32"
+        if opts:
+            case["opts"] = opts
 
     def _vet(self, case):
         """Keep the arithmetic inside the integer model: every expected value integral."""
@@ -557,6 +642,24 @@ class C36(Prop):
             prog.append(["apply", nobj - 1, _operand_value(rng, dims[0], rng.choice(kinds))])
             prog.append(["apply", a, _operand_value(rng, dims[0], rng.choice(kinds))])
         prog.append(["apply", cur, x])
+        return {"prog": prog}
+
+    def _gen_ad_left(self, rng):
+        """AdArray * S @ x : AdArray.__mul__ hands over to ArraySlicer.__rmul__."""
+        n = rng.randint(1, 5)
+        prog = [_slicer_args(rng, n, None, rng.choice(["restrict", "perm", "inject", "both", "prolong"]))]
+        sz = _sizes(prog[0])
+        if sz is None:
+            return None
+        nc = rng.randint(1, 3)
+        m = sz[1]
+        operand = ["ad", _vec(rng, m, -4, 4), nc, _rows(rng, m, nc)]
+        prog.append(["rop", operand, "*", 0])
+        x = ["vec", _vec(rng, sz[0])] if rng.random() < 0.5 else ["ad", _vec(rng, sz[0]), nc, _rows(rng, sz[0], nc)]
+        prog += [["apply", 1, x], ["apply", 0, x]]
+        if rng.random() < 0.4:      # nested: 2 * (ad * S), S' @ (ad * S)
+            prog.append(["rop", ["scalar", rng.choice([2, -3])], rng.choice(["*", "+", "-"]), 1])
+            prog.append(["apply", 2, x])
         return {"prog": prog}
 
     def _gen_pending(self, rng):
@@ -647,8 +750,15 @@ class C36(Prop):
             prog += [["mm", 1, 2], ["mm", 0, 3], ["apply", 4, x]]          # S0 @ (S1 @ S2)
         elif rng.random() < 0.5:
             prog += [["rop", ["scalar", 3], "*", 2], ["mm", 0, 3], ["apply", 4, x]]   # S0 @ (3 * S2)
-        else:
+        elif rng.random() < 0.5:
             prog += [["rop", ["scalar", 3], "+", 2], ["rop", ["scalar", 2], "*", 3], ["apply", 4, x]]
+        else:
+            # (S0 @ S1) @ (S2 @ (2 - S0)) and reuse of every intermediate
+            prog += [["mm", 0, 1], ["rop", ["scalar", 2], "-", 0], ["mm", 2, 4], ["mm", 3, 5],
+                     ["apply", 6, x], ["apply", 5, x], ["apply", 4, x], ["apply", 3, x], ["apply", 6, x]]
+        if rng.random() < 0.5:
+            prog += [["copy", len([q for q in prog if q[0] != "apply"]) - 1]]
+            prog += [["apply", len([q for q in prog if q[0] != "apply"]) - 1, x]]
         return {"prog": prog}
 
     def _gen_random(self, rng):
@@ -676,14 +786,10 @@ class C36(Prop):
                 dd.append(dd[i]); dr.append(dr[i])
             elif r < 0.5:
                 i, j = rng.randrange(nobj), rng.randrange(nobj)
-                if pend[j]:
-                    continue
                 prog.append(["mm", i, j]); pend.append(True); nobj += 1
                 dd.append(dd[i] or dd[j]); dr.append(dr[i] or dr[j])
             elif r < 0.6:
                 j = rng.randrange(nobj)
-                if pend[j]:
-                    continue
                 prog.append(["rop", ["scalar", rng.choice([2, -1, 3])], rng.choice(["*", "+", "-"]), j])
                 pend.append(True); nobj += 1
                 dd.append(dd[j]); dr.append(dr[j])
@@ -696,11 +802,15 @@ class C36(Prop):
 
     # ------------------------------------------------------------------ implementation
     def run_impl(self, case):
+        opts = case.get("opts") or {}
+        alias = None
+        flat = []
+        idt = {"int32": np.int32, "int64": np.int64}[opts.get("idx", "int64")]
         objs = []     # distinct python objects, in order of first appearance
         refs = []     # refs[k] = object returned by the k-th successful slicer-valued call
         outs = []
-        arr = lambda l: np.array(l, dtype=int)
-        for s in case["prog"]:
+        arr = lambda l: np.array(l, dtype=idt)
+        for kst, s in enumerate(case["prog"]):
             k = s[0]
             try:
                 if k == "new":
@@ -715,15 +825,40 @@ class C36(Prop):
                 elif k == "mm":
                     o = refs[s[1]] @ refs[s[2]]
                 elif k == "rop":
-                    A = int(s[1][1]) if s[1][0] == "scalar" else _csr(s[1][1], s[1][2])
+                    if s[1][0] == "scalar":
+                        A = int(s[1][1])
+                    elif s[1][0] == "ad":
+                        A = pp.ad.AdArray(np.array(s[1][1], dtype=float), _csr(s[1][2], s[1][3]))
+                    else:
+                        A = _csr(s[1][1], s[1][2])
                     S = refs[s[3]]  # noqa: F841
                     o = eval(f"A {s[2]} S")
                 else:
                     S = refs[s[1]]
-                    x = _py_value(s[2])
-                    with np.errstate(all="ignore"):
-                        r = S @ x
-                    outs.append(["val", _canon(r)])
+                    x = _py_value(s[2], opts)
+                    before = [b.copy() for b in _parts(x)]
+                    try:
+                        with np.errstate(all="ignore"):
+                            r = S @ x
+                    finally:
+                        # aliasing probe: the operand must come back untouched ...
+                        after = _parts(x)
+                        if any(not np.array_equal(a, b) for a, b in zip(before, after)) and alias is None:
+                            alias = f"statement {kst}: S @ x modified its operand"
+                        # ... and the result must not share memory with it
+                        for b in after:
+                            if b.dtype == bool:
+                                b[...] = ~b
+                            else:
+                                b[...] = b * 3 + 7
+                    outs.append(["val", _canon(r, opts.get("scale", 0))])
+                    # raw storage of a sliced sparse matrix (general path of _slice_matrix)
+                    if sps.issparse(r) and not S._is_onto and not getattr(S, "_pending", [1]) \
+                            and opts.get("fmt", "csr") == "csr":
+                        inv = 2.0 ** (-opts.get("scale", 0))
+                        flat.append([kst, [i for i, q in enumerate(objs) if q is S][0],
+                                     [int(i) for i in r.indptr], [int(i) for i in r.indices],
+                                     [float(v) * inv for v in r.data]])
                     continue
                 if not isinstance(o, ArraySlicer):
                     raise TypeError(f"{k} returned {type(o)}")
@@ -748,23 +883,26 @@ class C36(Prop):
                 outs.append(["err", "FuelErr"])
         dump = []
         for o in objs:
-            p = o._pending_operand
-            pk, pid = 0, 0
-            if p is not None:
-                if isinstance(p, ArraySlicer):
+            if hasattr(o, "_pending"):
+                pairs = list(o._pending)
+            else:   # trees before the pending list: a single (operand, operation) pair
+                pairs = [] if o._pending_operand is None else [(o._pending_operand, o._pending_operation)]
+            pend = []
+            for operand, operation in pairs:
+                pk, pid = 1, 0
+                if isinstance(operand, ArraySlicer):
                     pk = 3
-                    pid = [i for i, q in enumerate(objs) if q is p][0]
-                elif sps.issparse(p):
+                    pid = [i for i, q in enumerate(objs) if q is operand][0]
+                elif sps.issparse(operand):
                     pk = 2
-                else:
-                    pk = 1
+                elif isinstance(operand, pp.ad.AdArray):
+                    pk = 4
+                pend.append([pk, pid, OPS.index(operation)])
             dump.append({
                 "dom": [int(i) for i in o._domain_indices], "rng": [int(i) for i in o._range_indices],
                 "rsize": int(o._range_size), "dsize": int(o._domain_size),
-                "onto": bool(o._is_onto), "transposed": bool(o._is_transposed),
-                "pkind": pk, "pid": pid,
-                "pop": 0 if o._pending_operation is None else OPS.index(o._pending_operation)})
-        return {"outs": outs, "dump": dump}
+                "onto": bool(o._is_onto), "transposed": bool(o._is_transposed), "pend": pend})
+        return {"outs": outs, "dump": dump, "alias": alias, "flat": flat}
 
     # ------------------------------------------------------------------ oracle
     def _verdicts(self, case, res):
@@ -787,6 +925,8 @@ class C36(Prop):
         return bad
 
     def oracle(self, case, res):
+        if res.get("alias"):
+            return "aliasing: " + res["alias"]
         bad = self._verdicts(case, res)
         if not bad:
             return None
@@ -796,14 +936,29 @@ class C36(Prop):
         return bad[0][1]
 
     def finding_key(self, case, res, why):
+        if why.startswith("aliasing"):
+            return "aliasing"
         return KNOWN_KEY if why.startswith(KNOWN_KEY) else "slicer-mismatch"
 
     # ------------------------------------------------------------------ tie
     def coq_case(self, case, res):
         strict = not any(s[0] == "rop" for s in case["prog"])
         try:
-            return (f"agree {cbool(strict)} {clist(case['prog'], _stmt)} "
-                    f"{clist(res['outs'], _out)} {clist(res['dump'], _dump)}")
+            extra = ""
+            for kst, oid, ip, ind, dat in res.get("flat", []):
+                d = res["dump"][oid]
+                if len(set(d["rng"])) != len(d["rng"]) or len(d["rng"]) != len(d["dom"]):
+                    continue
+                v = case["prog"][kst][2]
+                rows = v[2]
+                A = (f"(mkcsr {cnat(len(rows))} {cnat(v[1])} "
+                     f"{_nats(list(np.cumsum([0] + [len(r) for r in rows])))} "
+                     f"{_nats([p[0] for r in rows for p in r])} {_zs([p[1] for r in rows for p in r])})")
+                S = (f"(mkS {_nats(d['dom'])} {_nats(d['rng'])} {cnat(d['rsize'])} {cnat(d['dsize'])} "
+                     f"{cbool(d['onto'])} {cbool(d['transposed'])} [])")
+                extra += f" && agree_flat {S} {A} {_nats(ip)} {_nats(ind)} {_zs([_int(x) for x in dat])}"
+            return (f"(agree {cbool(strict)} {clist(case['prog'], _stmt)} "
+                    f"{clist(res['outs'], _out)} {clist(res['dump'], _dump)}{extra})%bool")
         except NonInteger:
             return "false"
 
